@@ -86,6 +86,9 @@ Goroutines == /\ Is("goroutines") /\ Adv /\ UNCHANGED <<hist, closer, nread, bad
               /\ IF Ev.rotator THEN V("RotatorStillRunning") ELSE UNCHANGED viol
 Handles == /\ Is("handles") /\ Adv /\ UNCHANGED <<hist, closer, nread, bad, thr>>
            /\ IF Ev.n # 0 THEN V("HandlesLeaked") ELSE UNCHANGED viol
+(* C13 with readers: files of removed segments are gone once the readers are done *)
+DirCheck == /\ Is("dircheck") /\ Adv /\ UNCHANGED <<hist, closer, nread, bad, thr>>
+            /\ IF Ev.n # 0 THEN V("FilesNotReclaimed") ELSE UNCHANGED viol
 PanicEv == /\ Is("panic") /\ Adv /\ UNCHANGED <<hist, closer, nread, bad, thr>> /\ V("Panic")
 Stuck == /\ Is("stuck") /\ Adv /\ UNCHANGED <<hist, closer, nread, bad, thr>> /\ V("Deadlock")
 OpenErr == /\ (Is("open") \/ Is("preload")) /\ Adv /\ UNCHANGED <<hist, closer, nread, bad, thr>> /\ V("OpenFailed")
@@ -103,7 +106,7 @@ Note == /\ l <= Len(Trace) /\ Ev.ev \in {"schedule", "note"} /\ Adv /\ UNCHANGED
 Finish == /\ l = Len(Trace) + 1 /\ PrintT(<<"VIOL", ToJson([v |-> viol, nobs |-> nread])>>) /\ l' = l + 1
           /\ UNCHANGED <<hist, closer, viol, nread, bad, thr>>
 
-Next == Reset \/ WOp \/ Read \/ StableEv \/ CloseEv \/ Close2 \/ PostClose \/ Goroutines \/ Handles \/ PanicEv
+Next == Reset \/ WOp \/ Read \/ StableEv \/ CloseEv \/ Close2 \/ PostClose \/ Goroutines \/ Handles \/ DirCheck \/ PanicEv
         \/ Stuck \/ OpenErr \/ Reopen \/ Note \/ Finish
 Spec == Init /\ [][Next]_vars
 Accepted == TLCGet("stats").diameter = Len(Trace) + 2
